@@ -377,9 +377,56 @@ theorem forallStr_breaks_gen {f0 m : Nat} {p : Obj} (r o i0 : Nat) (c : Nat → 
 
 /-! ### `forall` over a dictionary
 
-The Go code ranges over the map (order unspecified; the model takes the key order `ks` as an
-oracle and re-reads the value of each key when its turn comes; a key removed meanwhile is
-skipped). -/
+The Go code takes a snapshot of the keys, sorts it ascending in the byte order of the names
+(`sortNames`; before the repair it ranged over the map in Go's unspecified order) and looks each
+key up again when its turn comes: the value is the current one, a key removed meanwhile is
+skipped. -/
+
+/-- the sorted key list has the same elements … -/
+theorem sortNames_perm (ks : List Name) : (sortNames ks).Perm ks := List.mergeSort_perm ks _
+
+theorem mem_sortNames {k : Name} {ks : List Name} : k ∈ sortNames ks ↔ k ∈ ks := List.mem_mergeSort
+
+theorem length_sortNames (ks : List Name) : (sortNames ks).length = ks.length := (sortNames_perm ks).length_eq
+
+/-- … and is ascending in the (byte) order of the names -/
+theorem sortNames_sorted (ks : List Name) : (sortNames ks).Pairwise (fun a b => a ≤ b) := by
+  have h := List.pairwise_mergeSort (le := fun (a b : Name) => decide (a ≤ b))
+    (fun a b c hab hbc => by
+      simp only [decide_eq_true_eq] at hab hbc ⊢
+      exact String.le_trans hab hbc)
+    (fun a b => by
+      simp only [Bool.or_eq_true, decide_eq_true_eq]
+      exact String.le_total a b) ks
+  unfold sortNames
+  simpa using h
+
+/-- no later key is smaller than an earlier one (Go's `less` is `keys[i] < keys[j]`) -/
+theorem sortNames_sorted' (ks : List Name) : (sortNames ks).Pairwise (fun a b => ¬ b < a) :=
+  (sortNames_sorted ks).imp (fun h => String.not_lt.mpr h)
+
+/-- distinct keys (those of a dictionary) come out strictly ascending -/
+theorem sortNames_strict (ks : List Name) (hnd : ks.Nodup) : (sortNames ks).Pairwise (fun a b => a < b) := by
+  have hnd' : (sortNames ks).Nodup := (sortNames_perm ks).nodup_iff.mpr hnd
+  have hs := sortNames_sorted ks
+  unfold List.Nodup at hnd'
+  refine (hs.and hnd').imp ?_
+  intro a b h
+  rcases Decidable.em (a < b) with hlt | hlt
+  · exact hlt
+  · exact absurd (String.le_antisymm h.1 (String.not_lt.mp hlt)) h.2
+
+/-- **the sorted list depends only on the set of keys, not on their order** -/
+theorem sortNames_perm_eq {ks₁ ks₂ : List Name} (h : ks₁.Perm ks₂) : sortNames ks₁ = sortNames ks₂ :=
+  List.Perm.eq_of_pairwise (le := fun (a b : Name) => a ≤ b)
+    (fun _ _ _ _ hab hba => String.le_antisymm hab hba)
+    (sortNames_sorted ks₁) (sortNames_sorted ks₂)
+    (((sortNames_perm ks₁).trans h).trans (sortNames_perm ks₂).symm)
+
+/-- a list that is already sorted stays as it is -/
+theorem sortNames_of_sorted {ks : List Name} (h : ks.Pairwise (fun a b => a ≤ b)) : sortNames ks = ks :=
+  List.Perm.eq_of_pairwise (le := fun (a b : Name) => a ≤ b)
+    (fun _ _ _ _ hab hba => String.le_antisymm hab hba) (sortNames_sorted ks) h (sortNames_perm ks)
 
 /-- the turn for key `k`: nothing happens when `k` is not (any longer) in the dictionary,
 otherwise the body runs with key and value pushed and ends with `ok` in `s1` -/
@@ -737,7 +784,7 @@ theorem forall_op_string (f m : Nat) (s : State) (r o l ar ao al : Nat) (rest : 
 theorem forall_op_dict (f m : Nat) (s : State) (r o l d : Nat) (rest : List Obj)
     (hs : s.vm.stack = .proc r o l :: .dict d :: rest) :
     callBuiltin (f + 1) m s "forall" =
-      forallDict f m (setStack s rest) d ((s.vm.getDict d).map (·.1)) (.proc r o l) := by
+      forallDict f m (setStack s rest) d (sortNames ((s.vm.getDict d).map (·.1))) (.proc r o l) := by
   unfold callBuiltin
   simp [hs]
 
@@ -979,6 +1026,10 @@ theorem pop_body (f m : Nat) (s : State) (r : Nat) (a : Obj) (rest : List Obj)
 #print axioms forallStr_breaks_gen
 #print axioms forallDict_count_gen
 #print axioms forallDict_breaks_gen
+#print axioms sortNames_sorted
+#print axioms sortNames_strict
+#print axioms sortNames_perm_eq
+#print axioms sortNames_of_sorted
 #print axioms for_op_real_increment
 #print axioms incr_body
 #print axioms add_body
